@@ -17,6 +17,8 @@ From KdV Require Import Base.Wrap64 Map.MapModel Map.MapSpec Map.MapProofs.
 From KdV Require Import Res.OomMap.
 From KdV Require Import Res.Tokens Res.TokensProofs Res.OomModel Res.OomSpec Res.OomProofs.
 From KdV Require Import Res.SysLayout Res.SysLayoutProofs.
+From KdV Require Import Res.Reopen Res.ReopenProofs.
+From Coq Require Import Permutation.
 Import ListNotations.
 
 (** kdump_new: for every failure index n the call returns NULL exactly when an
@@ -200,6 +202,27 @@ Theorem C18_kdump_new_pinned_leak_refuted :
     run (kdump_new_pinned nr []) (fail_nth n) = (r, tr, fl) /\ r = None /\ ~ balanced tr.
 Proof. exact new_pinned_leak_witness. Qed.
 Print Assumptions C18_kdump_new_pinned_leak_refuted.
+
+(** open_dump on a context that may already have a file open (fixes/100): under
+    every allocation schedule, and whatever the probes answer, an allocator
+    failure makes the open fail, and every block alive afterwards is owned by
+    the context's state (format blocks, file cache, flattened map) - so that
+    kdump_free, or the next open, gives it back; no lock or pin is held *)
+Theorem C18_reopen_unwind : forall st0 nfc probes sch,
+  stoks st0 = [] ->
+  let '(r, tr, fl) := run (open_dump true st0 nfc probes) sch in
+  (fl = true -> fst r = false) /\
+  exists x, replay tr = Some x /\ Permutation (live x) (stoks (snd r)) /\ locks x = [] /\ pins x = [].
+Proof. exact open_dump_run. Qed.
+Print Assumptions C18_reopen_unwind.
+
+(** the same from any state: what the previous open left (including the
+    remains of a failed one) is released or taken over, never lost *)
+Theorem C18_reopen_unwind_from : forall st0 nfc probes s T0 L K P F,
+  PSt s (stoks st0 ++ T0) L K P F ->
+  wp (open_dump true st0 nfc probes) (open_post T0 L K P F) s.
+Proof. exact open_dump_releases_first. Qed.
+Print Assumptions C18_reopen_unwind_from.
 
 (** non-vacuity: a concrete run that fails in the middle of the attribute
     dictionary (n = 7 of 3 + 1 + 1 + 4 + ... allocations) returns NULL with a
